@@ -563,16 +563,19 @@ theorem coreStep_mres [Mul P] (B : Backend Q P) (cfg : Cfg) (mode : Mode) (c : C
     cases op with
     | gate g =>
       simp only
-      cases fires g k.bits with
-      | error e => rfl
-      | ok bv =>
-        cases bv with
-        | false => rfl
-        | true =>
-          simp only
-          cases k.f.st with
-          | none => rfl
-          | some q => simp only; split <;> rfl
+      by_cases hr : refuses cfg g k.f.mixed = true
+      · simp only [hr, ↓reduceIte]
+      · simp only [hr, Bool.false_eq_true, ↓reduceIte]
+        cases fires g k.bits with
+        | error e => rfl
+        | ok bv =>
+          cases bv with
+          | false => rfl
+          | true =>
+            simp only
+            cases k.f.st with
+            | none => rfl
+            | some q => simp only; split <;> rfl
     | meas t store =>
       simp only
       cases mode with
@@ -594,16 +597,19 @@ theorem coreStep_det [Mul P] (B : Backend Q P) (cfg : Cfg) (mode : Mode) (c : Ci
     cases op with
     | gate g =>
       simp only
-      cases fires g k.bits with
-      | error e => rfl
-      | ok bv =>
-        cases bv with
-        | false => rfl
-        | true =>
-          simp only
-          cases k.f.st with
-          | none => rfl
-          | some q => simp only; split <;> rfl
+      by_cases hr : refuses cfg g k.f.mixed = true
+      · simp only [hr, ↓reduceIte]
+      · simp only [hr, Bool.false_eq_true, ↓reduceIte]
+        cases fires g k.bits with
+        | error e => rfl
+        | ok bv =>
+          cases bv with
+          | false => rfl
+          | true =>
+            simp only
+            cases k.f.st with
+            | none => rfl
+            | some q => simp only; split <;> rfl
     | meas t store =>
       simp only
       cases mode with
